@@ -354,11 +354,47 @@ def h_twin(ctx):
     ctx.prove("C06.twin.wrong_share", EQ(Vs[0] / x[0] + Vs[1] / x[1], (1 - theta / 2) * eps * eps))
 
 
+def replay_regressed_rates(sc):
+    """real engine with the convergence rates left to the regression (alpha = beta = gamma = None), three levels, one level whose
+    differences are exactly zero (log2 of a zero mean / variance is -inf: the regressed rate falls back to its floor): the run returns a
+    finite price equal to the sum of the level means.  (The regression itself - numpy lstsq - is outside the solver claim: concrete run.)"""
+    from .mlmc_common import ScriptedCoupling, ScriptedProduct, Registry
+
+    class Ctx:
+        def __init__(self):
+            self.k = 0
+
+        def real(self, name, lo=None, hi=None):
+            self.k += 1
+            if name.startswith("cost"):
+                return 1.0 + int(name[4:])
+            if name.startswith("f[1") or name.startswith("c[1"):
+                return 0.25  # level 1: fine == coarse on every path
+            return float(np.sin(1.7 * self.k) + 0.3 * self.k % 1.3)
+
+    reg = Registry(Ctx())
+    cc = CR.ConvergenceCriteria(criteria=CR.criteria_giles, compute_mc_paths=CR.compute_mc_paths_giles)  # the library's own criteria
+    cfg = CFG.ConfigurationMultiLevel(convergence_rates=CFG.ConvergenceRates(alpha=None, beta=None, gamma=None), convergence_criteria=cc,
+                                      initial_level=2, maximum_level=3, initial_mc_paths=4, nb_of_processes=1)
+    cfg.initialisation_seed = lambda multiprocessing=False: None
+    eng = ME.Engine(cfg, ScriptedCoupling(reg, 0.9))
+    try:
+        stats = eng.price(ScriptedProduct(2.0), 50.0)
+    except Exception as e:
+        return True, f"rates regressed, level 1 with zero differences: price() raises {type(e).__name__}: {str(e)[:120]}"
+    want = sum(sum(0.9 * 2.0 * (f - c) for f, c in S) / len(S) for S in reg.samples.values() if S)
+    got = float(np.ravel(stats.price())[0])
+    bad = not np.isfinite(got) or abs(got - want) > 1e-9 * max(1.0, abs(want))
+    return bool(bad), f"rates regressed, level 1 with zero differences: price {got!r}, sum of the level means {want!r}, N_l = {np.asarray(stats.mlmc_results.Nl).tolist()}"
+
+
 def concrete_validation():
     N = CR.compute_mc_paths_giles(0.1, np.array([1.0, 0.5]), np.array([1.0, 2.0]))
     th = float(theta_of_allocation())
     ok = sum(v / n for v, n in zip([1.0, 0.5], N)) <= (1 - th) * 0.01
-    return [("C06.concrete.allocation", bool(ok), f"shimmed module on floats: N={N.tolist()} theta={th}")]
+    bad, detail = replay_regressed_rates({})
+    return [("C06.concrete.allocation", bool(ok), f"shimmed module on floats: N={N.tolist()} theta={th}"),
+            ("C06.concrete.regressed_rates_with_a_zero_level", not bad, detail)]
 
 
 def harnesses(tier):
@@ -389,7 +425,7 @@ EXPECT = ["C06.positive_variance_gets_samples", "C06.sizes_are_rounded_up", "C06
 
 
 def main(tier):
-    bounds = {"histories_and_variants": 'bias test with 1, 2 and 3 level means; loop with levels of 100 samples and answers 100 + [0, 2] (2 passes)',
+    bounds = {"histories_and_variants": 'bias test with 1, 2 and 3 level means; loop with levels of 100 samples and answers 100 + [0, 2] (2 passes); concrete reference only (outside the solver claim): rates regressed by lstsq with one level of exactly zero differences',
               "allocation": "variance/cost vectors of length <= 2 (quick) / 3 (thorough), all non-negative reals incl. zeros, all rmse > 0",
               "loop": "as C05: initial_level <= 1/2, level_max <= initial+1/+2; quick: answers in [0,2] (two levels) / [0,1] (three levels), 4 passes; thorough: per configuration "
                       "(answers bound, passes) from ([0,3], 4) on one or two levels down to ([0,1], 4) / ([0,2], 3) / ([0,3], 2) on three and four levels",
